@@ -424,10 +424,16 @@ func flagWalk(p *Program, fn *ssa.Function, seeds map[ssa.Value]bool, depth int,
 			continue
 		}
 		ctx.decisions++
+		// what each side does besides handling the switch; the same effects
+		// (same callee, same sources of the arguments, same destination) on
+		// both sides do not depend on the flag
+		type effect struct{ sig, why string }
+		var sides [][]effect
 		for _, side := range b.Succs {
 			if len(side.Preds) != 1 {
 				continue
 			}
+			var effs []effect
 			for _, rb := range fn.Blocks {
 				if !(rb == side || side.Dominates(rb)) {
 					continue
@@ -448,7 +454,7 @@ func flagWalk(p *Program, fn *ssa.Function, seeds map[ssa.Value]bool, depth int,
 						if _, isB := x.Call.Value.(*ssa.Builtin); isB || pureScan(cal) {
 							continue
 						}
-						ctx.good, ctx.why = false, "a branch that depends on the flag does more than handle the optimizer switch: it calls "+calleeFullName(&x.Call)
+						effs = append(effs, effect{effectSig(ins), "a branch that depends on the flag does more than handle the optimizer switch: it calls " + calleeFullName(&x.Call)})
 					case *ssa.Store:
 						base := x.Addr
 						if fa, ok := base.(*ssa.FieldAddr); ok {
@@ -458,11 +464,27 @@ func flagWalk(p *Program, fn *ssa.Function, seeds map[ssa.Value]bool, depth int,
 							base = ia.X
 						}
 						if _, isAlloc := base.(*ssa.Alloc); !isAlloc {
-							ctx.good, ctx.why = false, "a branch that depends on the flag stores into evaluator state"
+							effs = append(effs, effect{effectSig(ins), "a branch that depends on the flag stores into evaluator state"})
 						}
 					case *ssa.MapUpdate, *ssa.Go, *ssa.Defer, *ssa.Send, *ssa.Panic:
-						ctx.good, ctx.why = false, "a branch that depends on the flag has other effects"
+						effs = append(effs, effect{"", "a branch that depends on the flag has other effects"})
 					}
+				}
+			}
+			sides = append(sides, effs)
+		}
+		same := len(sides) == 2 && len(sides[0]) == len(sides[1])
+		if same {
+			for i := range sides[0] {
+				if sides[0][i].sig == "" || sides[0][i].sig != sides[1][i].sig {
+					same = false
+				}
+			}
+		}
+		if !same {
+			for _, effs := range sides {
+				for _, e := range effs {
+					ctx.good, ctx.why = false, e.why
 				}
 			}
 		}
@@ -476,7 +498,83 @@ func flagWalk(p *Program, fn *ssa.Function, seeds map[ssa.Value]bool, depth int,
 			}
 		}
 	}
+	// a scan that answers with constants — `return false` at the first flag
+	// seen, `return true` after the loop: the result carries the outcome of
+	// the tests, and it is the switch itself
+	if hasDerivedIf && fn.Signature.Results().Len() == 1 && isBoolType(fn.Signature.Results().At(0).Type()) {
+		consts, other := map[bool]bool{}, false
+		for _, b := range fn.Blocks {
+			if ret, ok := terminator(b).(*ssa.Return); ok {
+				if c, ok := returnOperand(ret, 0).(*ssa.Const); ok && c.Value != nil && c.Value.Kind() == constant.Bool {
+					consts[constant.BoolVal(c.Value)] = true
+				} else if !derived[returnOperand(ret, 0)] {
+					other = true
+				}
+			}
+		}
+		if !other && len(consts) == 2 {
+			resultDerived = true
+			ctx.sawFalse = true
+		}
+	}
 	return resultDerived
+}
+
+// effectSig: a description of a call or store by what it calls or writes and
+// where its operands come from (fields, constants, results of named calls),
+// for comparing the two sides of a branch.
+func effectSig(ins ssa.Instruction) string {
+	var val func(v ssa.Value, d int) string
+	val = func(v ssa.Value, d int) string {
+		if d > 4 {
+			return "?"
+		}
+		switch x := v.(type) {
+		case *ssa.Const:
+			return "const " + x.String()
+		case *ssa.Parameter:
+			return "param " + x.Name()
+		case *ssa.UnOp:
+			return "*" + val(x.X, d+1)
+		case *ssa.FieldAddr:
+			if k := fieldKey(x); k != "" {
+				return "&" + k
+			}
+		case *ssa.Call:
+			return effectSig(x)
+		case *ssa.MakeInterface:
+			return val(x.X, d+1)
+		case *ssa.ChangeType:
+			return val(x.X, d+1)
+		case *ssa.Convert:
+			return val(x.X, d+1)
+		case *ssa.Global:
+			return "global " + x.Name()
+		}
+		return "?"
+	}
+	switch x := ins.(type) {
+	case *ssa.Call:
+		if x.Call.StaticCallee() == nil {
+			return ""
+		}
+		s := "call " + x.Call.StaticCallee().String() + "("
+		for _, a := range x.Call.Args {
+			d := val(a, 0)
+			if strings.Contains(d, "?") {
+				return ""
+			}
+			s += d + ","
+		}
+		return s + ")"
+	case *ssa.Store:
+		a, v := val(x.Addr, 0), val(x.Val, 0)
+		if strings.Contains(a, "?") || strings.Contains(v, "?") || v == "" {
+			return ""
+		}
+		return "store " + a + " <- " + v
+	}
+	return ""
 }
 
 func ruleFlagOnly(p *Program, r *Reporter) {
